@@ -8,7 +8,7 @@
 #ifdef __cplusplus
 /* Legacy style asserts (for C++):*/
 #define assert_true(result) \
-        (*cgreen::get_test_reporter()->assert_true)(cgreen::get_test_reporter(), FILENAME, __LINE__, (result), "[" STRINGIFY_TOKEN(result) "] should be true\n", NULL)
+        (*cgreen::get_test_reporter()->assert_true)(cgreen::get_test_reporter(), FILENAME, __LINE__, !!(result), "[" STRINGIFY_TOKEN(result) "] should be true\n", NULL)
 #define assert_false(result) \
         (*cgreen::get_test_reporter()->assert_true)(cgreen::get_test_reporter(), FILENAME, __LINE__, ! (result), "[" STRINGIFY_TOKEN(result) "] should be false\n", NULL)
 #define assert_equal(tried, expected) \
@@ -25,7 +25,7 @@
         assert_string_not_equal_(FILENAME, __LINE__, STRINGIFY_TOKEN(tried), (tried), (expected))
 
 #define assert_true_with_message(result, ...) \
-        (*cgreen::get_test_reporter()->assert_true)(cgreen::get_test_reporter(), FILENAME, __LINE__, (result), __VA_ARGS__)
+        (*cgreen::get_test_reporter()->assert_true)(cgreen::get_test_reporter(), FILENAME, __LINE__, !!(result), __VA_ARGS__)
 #define assert_false_with_message(result, ...) \
         (*cgreen::get_test_reporter()->assert_true)(cgreen::get_test_reporter(), FILENAME, __LINE__, ! (result), __VA_ARGS__)
 #define assert_equal_with_message(tried, expected, ...) \
@@ -43,7 +43,7 @@
 #else
 /* Legacy style asserts (for C):*/
 #define assert_true(result) \
-        (*get_test_reporter()->assert_true)(get_test_reporter(), FILENAME, __LINE__, (result), "[" STRINGIFY_TOKEN(result) "] should be true\n", NULL)
+        (*get_test_reporter()->assert_true)(get_test_reporter(), FILENAME, __LINE__, !!(result), "[" STRINGIFY_TOKEN(result) "] should be true\n", NULL)
 #define assert_false(result) \
         (*get_test_reporter()->assert_true)(get_test_reporter(), FILENAME, __LINE__, ! (result), "[" STRINGIFY_TOKEN(result) "] should be false\n", NULL)
 #define assert_equal(tried, expected) \
@@ -60,7 +60,7 @@
         assert_string_not_equal_(FILENAME, __LINE__, STRINGIFY_TOKEN(tried), (tried), (expected))
 
 #define assert_true_with_message(result, ...) \
-        (*get_test_reporter()->assert_true)(get_test_reporter(), FILENAME, __LINE__, (result), __VA_ARGS__)
+        (*get_test_reporter()->assert_true)(get_test_reporter(), FILENAME, __LINE__, !!(result), __VA_ARGS__)
 #define assert_false_with_message(result, ...) \
         (*get_test_reporter()->assert_true)(get_test_reporter(), FILENAME, __LINE__, ! (result), __VA_ARGS__)
 #define assert_equal_with_message(tried, expected, ...) \
